@@ -242,7 +242,9 @@ def check_optimal(case):
         if c['kind'] == 'optimum':
             require_close(s, up, 'score of the analytic optimum vs upper bound (%s)' % method,
                           sig + ':value', rtol=1e-9, atol=1e-9)
-    require(lo <= up + 1e-9, 'lower %.12g > upper %.12g (%s)' % (lo, up, method), 'ordering:' + method)
+    if method in ORDER_METHODS:     # the ordering is claimed for cosine / correlation types only
+        require(lo <= up + 1e-9, 'lower %.12g > upper %.12g (%s)' % (lo, up, method),
+                'ordering:' + method)
 
 
 def classify_optimal(case):
@@ -438,7 +440,7 @@ def classify_cv(case):
 # ---------------------------------------------------------------------------
 # 5. exhaustive: every rank vector with ties as competitor for rho-a (3 and 4 conditions)
 
-def enum_rank_cases(tier, seed):
+def enum_rank_cases_n3(tier, seed):
     w3 = cref.weak_orders(3)
     for r1, r2 in itertools.product(w3, repeat=2):
         if len(set(r1)) > 1 and len(set(r2)) > 1:
@@ -448,16 +450,29 @@ def enum_rank_cases(tier, seed):
         triples = triples[(seed % 4)::4]
     for r1, r2, r3 in triples:
         yield dict(n=3, rows=[list(r1), list(r2), list(r3)])
-    ident = [0.0, 1.0, 2.0, 3.0, 4.0, 5.0]
-    w6 = cref.weak_orders(6)
-    step = 13 if tier == 'thorough' else 400
-    for r2 in w6[(seed % step)::step]:
-        if len(set(r2)) > 1:
-            yield dict(n=4, rows=[ident, list(r2)])
-    tied = [0.0, 0.0, 1.0, 2.0, 2.0, 3.0]
-    for r2 in w6[(seed % (7 * step))::(7 * step)]:
-        if len(set(r2)) > 1:
-            yield dict(n=4, rows=[tied, list(r2), ident])
+
+
+N4_SHARDS = 4
+
+
+def enum_rank_cases_n4(shard):
+    """data stacks over 4 conditions (6 pairs): the identity ranking (w.l.o.g. by relabelling the
+    pairs) against every `step`-th weak ordering, plus three-RDM stacks with a tied first RDM;
+    the competitors are ALL 4683 weak orderings in every case"""
+    def fn(tier, seed):
+        ident = [0.0, 1.0, 2.0, 3.0, 4.0, 5.0]
+        tied = [0.0, 0.0, 1.0, 2.0, 2.0, 3.0]
+        w6 = cref.weak_orders(6)
+        step = 9 if tier == 'thorough' else 400
+        picks = w6[(seed % step)::step]
+        for j, r2 in enumerate(picks):
+            if len(set(r2)) > 1 and j % N4_SHARDS == shard:
+                yield dict(n=4, rows=[ident, list(r2)])
+        picks = w6[(seed % (7 * step))::(7 * step)]
+        for j, r2 in enumerate(picks):
+            if len(set(r2)) > 1 and j % N4_SHARDS == shard:
+                yield dict(n=4, rows=[tied, list(r2), ident])
+    return fn
 
 
 _W = {}
@@ -498,7 +513,18 @@ SUBCHECKS = [
              doc='bounds unchanged by per-RDM positive scaling (cosine types) / affine maps (corr types)'),
     SubCheck('crossval', cv_case(), check_cv, classify_cv, quick=250,
              doc='cv_noise_ceiling == recomputation from the fold indices of sets_k_fold'),
-    Enumeration('rho_a_all_rank_vectors', enum_rank_cases, check_enum, classify_enum,
-                doc='every weak ordering of 3 / 6 entries as competitor: none beats, one attains '
-                    'the rho-a upper bound', tiers=('quick', 'thorough')),
+    Enumeration('rho_a_all_rank_vectors_n3', enum_rank_cases_n3, check_enum, classify_enum,
+                doc='3 conditions: all pairs (quick: a quarter of the triples, thorough: all triples) '
+                    'of non-constant weak orderings as data, every weak ordering (13) as competitor: '
+                    'none beats, one attains the rho-a upper bound', tiers=('quick', 'thorough')),
+] + [
+    Enumeration('rho_a_all_rank_vectors_n4_%d' % k, enum_rank_cases_n4(k), check_enum, classify_enum,
+                doc='4 conditions: every weak ordering of the 6 pairs (4683) as competitor against '
+                    'identity x every 9th (quick: 400th) weak ordering as data (shard %d of %d)' % (
+                        k + 1, N4_SHARDS), tiers=('quick', 'thorough'))
+    for k in range(N4_SHARDS)
 ]
+
+# every check starts from numpy's default floating-point error state (see c07_ref.reset_fp)
+for _sc in SUBCHECKS:
+    _sc.check = cref.guarded(_sc.check)
